@@ -23,6 +23,8 @@ fn entry_at(log: &[u8], at: usize) -> String {
     let ret_len = |l: &[u8], i: usize| -> usize {
         if l.get(i + 1).copied() == Some(0xfe) {
             2
+        } else if l.get(i + 1).copied() == Some(0xfd) {
+            3
         } else if l.get(i).copied() == Some(1) {
             3 + rd16(l, i + 1)
         } else {
